@@ -1135,6 +1135,12 @@ pub fn work_list(cfg: &RunCfg) -> Option<WorkList> {
               "\\<(?=)", "\\>(?=)", "(?i)\u{17f}(?=)", ",", "\\|", "1\\.5", "-+", "\\-|\\+"].iter() {
         fixed.push(Item::new(w, "witness"));
     }
+    // groups in every group-bearing construct (numbering must agree between the parser, the
+    // analyzer and regex-automata's own count of the re-printed text)
+    for w in ["(?<=(a))b", "(?<!(a))(b)", "(?!(a))(b)", "(?=(a))(?<n>a)", "(?((a))b|c)", "(a)?(?(1)(b)|(c))", "(?(?=(a))(?<n>a)|(b))", "(?i:(a))(?<n>b)", "(?:(?>(?<n>a)))+b", "(?:(?<n>a)|b)+(?<m>c)?",
+              "(a)(b)(c)(d)(e)(f)(g)(h)(i)(j)(?<k>k)?", "(a)(b)(c)(d)(e)(f)(g)(h)(i)(j)(?<k>k)?(?=)", "(?<a>a)(?<b>(?<c>b)|(?<d>c))", "((?<n>a)|(?<m>b))(?=)", "(?<n>a)(?!(?<m>b))(?<o>.)?", "(?x) (?<n> a ) ( b )"].iter() {
+        fixed.push(Item::new(w, "witness"));
+    }
     if cfg.prop == "C09" {
         // `\G` inside a look-behind: position-sensitive whatever the entry point; coherence
         // between the entry points needs no reference semantics (seed S8-C09)
